@@ -52,7 +52,7 @@ KIND_BOUNDARY = {
     "canonical": ["", "YES", "yes", "Yes", "Y", "NO", "no", "True", "1", " yes", "yes "],
     "bool": ["True", "False", "true", "FALSE", "T", "F", "1", "0", "", "yes", " True"],
     "text": ["", " ", "a", "0", "None", "#", "a;b", "\u00e9", "  x  "],
-    "textorint": ["1", "01", "X", "MT", "", "0", "-0", "1.0", "chr1", "+1", " 1"],
+    "textorint": ["1", "01", "X", "MT", "", "0", "-0", "1.0", "chr1", "+1", " 1", '"7"', '"37"', "'7'", '"X"', '"', '""', "7\"", "(7)", "[7]"],
     "enum": ["", "Null", "null", "NULL", "nULL", "None", "none", "Yes", "YES", "yes", "No", "1", "0", "2", "Y", "N", "y", "n", "+", "-", "Unknown", "unknown"],
     "seq": ["", ";", ";;", "a", "a;", ";a", "a;;b", "a;b;c", "1;2", "1;;2", "1;a", "Null", "null;Yes", "Yes;No;", "0;1;", "Other;454", "454;bogus"],
 }
@@ -546,6 +546,34 @@ ODD_VALUES = [[0], [1, 1], [1, 0], [2, 0], [2, 1], [2, -1], [2, 7], [3, "1.5"], 
               [5, "NullableYesOrNoEnum", 0], [6, "12345678-1234-5678-1234-567812345678"], [9], [4, "é"], [4, " "], [2, 10 ** 30]]
 
 
+KIND_ODD_VALUES = {
+    "strand": [[1, 1], [1, 0], [2, 1], [2, -1], [2, 0], [2, 2], [4, "1"], [3, "1.0"], [0]],
+    "int": [[1, 1], [1, 0], [2, 0], [2, -1], [2, 1], [3, "1.0"], [4, "1"], [0], [2, 10 ** 30]],
+    "entrez": [[1, 1], [1, 0], [2, 0], [2, -1], [0], [4, "0"]],
+    "canonical": [[1, 1], [1, 0], [2, 1], [4, "YES"], [0]],
+    "bool": [[1, 1], [2, 0], [4, "True"], [0]],
+    "float": [[3, "1.5"], [3, "nan"], [3, "inf"], [2, 1], [1, 1], [4, "1.5"], [0]],
+    "text": [[4, ""], [4, " "], [4, "a\tb"], [4, "a\nb"], [0], [2, 0], [1, 0], [7, []]],
+    "dna": [[4, ""], [4, "-"], [4, "A-C"], [4, "acgt"], [0], [4, "A\tC"]],
+    "uuid": [[0], [4, "12345678-1234-5678-1234-567812345678"], [6, "12345678-1234-5678-1234-567812345678"], [4, ""]],
+    "seq": [[7, []], [7, [[4, ""]]], [7, [[4, ";"]]], [7, [[4, "a;b"]]], [7, [[4, "a\tb"]]], [8, [[4, "a"]]], [4, "a;b"], [0], [7, [[0]]], [7, [[1, 1]]]],
+    "enum": [[0], [4, "Yes"], [4, ""], [5, "NullableYesOrNoEnum", 0], [5, "PickEnum", 0], [5, "StrandEnum", 0], [1, 1]],
+    "textorint": [[1, 1], [2, 7], [4, "007"], [4, "7"], [3, "7.0"], [0], [4, ""]],
+}
+NULLABLE_FOREIGN = [["NullableStringColumn", [0]], ["NullableIntegerColumn", [0]], ["NullableFloatColumn", [0]], ["NullableUUIDColumn", [0]],
+                    ["NullableDnaString", [0]], ["SequenceOfStrings", [7, []]], ["SequenceOfIntegers", [7, []]], ["EntrezGeneId", [0]],
+                    ["NullableYesOrNo", [5, "NullableYesOrNoEnum", 0]], ["PickColumn", [5, "PickEnum", 0]], ["TranscriptStrand", [0]],
+                    ["VerificationStatus", [0]], ["NullableZeroBasedIntegerColumn", [0]]]
+
+
+def kind_odd_value(rng, d):
+    k = d["k"] if d else None
+    if k == "mustnull":
+        return kind_odd_value(rng, d["base"])
+    lst = KIND_ODD_VALUES.get(k)
+    return rng.choice(lst) if lst and rng.random() < 0.6 else rng.choice(ODD_VALUES)
+
+
 def _cls_spec_of_descr_col(annot, i):
     """class spec of the layout column (source class name or RequireNullValue mix) from the pinned spec"""
     d = SP.layout(annot)["columns"][i][1]
@@ -585,12 +613,17 @@ def gen_write(rng, annots=None, strict_share=0.8):
     hit = []
 
     def perturb_value(i):
-        slots[i]["value"] = rng.choice(ODD_VALUES)
+        slots[i]["value"] = kind_odd_value(rng, cols[i][1]) if i < len(cols) else rng.choice(ODD_VALUES)
         hit.append(i)
 
     def perturb_class(i):
         r = rng.random()
-        if r < 0.5:
+        if r < 0.25:
+            # a foreign nullable class holding its own null value
+            c, v = rng.choice(NULLABLE_FOREIGN)
+            slots[i]["cls"] = ["src", c]
+            slots[i]["value"] = v
+        elif r < 0.5:
             slots[i]["cls"] = ["src", rng.choice(FOREIGN_CLASSES)]
         elif r < 0.75 and slots[i]["cls"][0] == "mix":
             slots[i]["cls"] = slots[i]["cls"][2]          # the un-mixed base class
